@@ -224,7 +224,7 @@ def e2e(ctx, iso3, options):
         with quiet():
             cp, tcp, out = model.first_round(iso3, options)
     except (AssertionError, SystemExit, Exception) as e:
-        ctx.abort(type(e).__name__)
+        model.abort_or_supply_failure(ctx, e, case)
         return
     consts, tc = out[0], out[1]
     feed_demand, biofuel_demand = out[4], out[5]
@@ -307,7 +307,7 @@ def grass_multiplier(ctx, c):
             g0 = np.asarray(MeatAndDairy(cp0).human_inedible_feed.kcals, float)
             g1 = np.asarray(MeatAndDairy(cp1).human_inedible_feed.kcals, float)
     except (AssertionError, SystemExit, Exception) as e:
-        ctx.abort(type(e).__name__)
+        model.abort_or_supply_failure(ctx, e, case)
         return
     n = cp0["NMONTHS"]
     wellformed(ctx, "grass", g1, n, case)
